@@ -32,6 +32,7 @@ TECHNIQUE += '; reader decoding policy; resume-offset contract of receive() on a
 LEVEL_TEXT += " Added clauses: undecodable bytes do not stop the reader; the stored offset is the file's own position."
 TECHNIQUE += '; deliveries lie inside the reading loop'
 TECHNIQUE += "; end-to-end interpretation of pack() -> unpack() on the JSON level for ids, recipients and payloads over the encoding's own characters (C19.R12)"
+TECHNIQUE += '; delivered ids are never forgotten (R7 who-may-remove clause)'
 LEVEL_TEXT += ' Added clause: offset and seen-set move one record at a time.'
 LEVEL_NOTE = 'Trusted: str.replace and re.sub scan left to right; a text-mode readline() returns a line without trailing newline only at end of file.'
 EXPLANATION = ('Static analysis of /repo sources, TatSu not imported. Stage sequences are extracted from the def-use chain of the '
@@ -544,6 +545,23 @@ def r7_queue_invariants(a, tier):
         rep.fail(f'{q}.__init__', 'reader-start', 'a new queue object does not start reading at offset 0: packets already in the file are never delivered to it', init.loc)
     if not ok2:
         rep.fail(f'{q}.__init__', 'reader-seen', 'a new queue object does not start with an empty set() of seen ids', init.loc)
+    # (b2) delivered ids are never forgotten: the offset protects only iterators that START after it advanced; an iterator that is already open
+    #      (two consumers of one queue object, receive_async) re-reads lines another iterator consumed and relies on the id set
+    forget = []
+    for f in a.p.functions.values():
+        if f.module.name != 'tatsu.packetz.queue' or f.name == '__init__':
+            continue
+        for n in walk_no_defs(f.node):
+            if isinstance(n, ast.Call) and isinstance(n.func, ast.Attribute) and n.func.attr in ('clear', 'discard', 'remove', 'pop', 'difference_update', 'intersection_update') \
+                    and norm(n.func.value).endswith('._seen'):
+                forget.append((f, n, norm(n)))
+            tg = n.targets if isinstance(n, ast.Assign) else ([n.target] if isinstance(n, (ast.AugAssign, ast.AnnAssign)) else [])
+            if any(norm(t).endswith('._seen') for t in tg):
+                forget.append((f, n, norm(n)[:60]))
+    rep.add({'delivered_ids_removed_or_rebound_in': [f'{f.qualname}: {t}' for f, _, t in forget]})
+    for f, n, t in forget:
+        rep.fail(f.qualname, f'seen-forgotten:{n.func.attr if isinstance(n, ast.Call) else "rebound"}', f'`{t}` in {f.name}(): ids of delivered packets are dropped; an iterator of the same '
+                 f'queue object that was suspended earlier re-reads the lines after its own position and delivers those packets a second time', f'{f.module.relpath}:{n.lineno}')
     # (c) fresh ids
     wid = a.p.classes.get('tatsu.packetz.packet.WithID')
     new = wid.methods.get('__new__') if wid else None
